@@ -28,6 +28,11 @@ def family(rng, n, mode):
         e = [rng.randint(8, 16) for _ in range(n)]
     elif mode == "bic_under":                # determinant underflows a double for n >= ~100
         e = [-rng.randint(8, 16) for _ in range(n)]
+    elif mode == "subnormal":                # det = 2^sum(e) lands among the subnormal doubles: finite, positive, few bits
+        target = -rng.randint(1026, 1070)
+        base_e, rem = divmod(target, n)
+        e = [base_e + (1 if i < rem else 0) for i in range(n)]
+        rng.shuffle(e)
     else:
         e = [rng.randint(-6, 6) for _ in range(n)]
     L = np.eye(n)
@@ -55,7 +60,9 @@ def ll_cases(rng, count, sizes):
         K = rng.randint(1, 3)
         clusters = []
         for k in range(K):
-            f = family(rng, n, ["huge", "tiny", "mixed"][(c + k) % 3] if n > 1 else "mixed")
+            # (n >= 60 keeps every exponent within the -22 .. 22 the limb arithmetic of MetricOps is sized for)
+            f = family(rng, n, ("subnormal" if (c % 7 == 3 and n >= 60 and k == 0) else
+                                ["huge", "tiny", "mixed"][(c + k) % 3]) if n > 1 else "mixed")
             f["mu"] = [rng.randint(-3, 3) for _ in range(n)]
             clusters.append(f)
         T = rng.randint(1, 4)
@@ -76,6 +83,40 @@ def ll_cases(rng, count, sizes):
                       "evaluate_twice": c % 3 == 2,
                       "points": pts})
     return cases
+
+
+def llobs_cases(rng, count):
+    """Generic SPD precision matrices (full mantissas, not the exact dyadic family) with log det in the band where
+    det is a subnormal double (about -745 .. -708) or just beyond either end of the double range."""
+    nrng = np.random.default_rng(rng.randrange(1 << 30))
+    cases = []
+    for c in range(count):
+        n = [12, 40, 90][c % 3]
+        W = [3, 10, 9][c % 3]
+        target = [-743.5, -741.0, -738.0, -744.4, 707.0, 709.5, -750.0, -700.0][c % 8]
+        q, _ = np.linalg.qr(nrng.normal(size=(n, n)))
+        u = nrng.uniform(-0.6, 0.6, size=n)
+        u -= u.mean()
+        lam = np.exp(target / n + u)
+        theta = (q * lam) @ q.T
+        theta = (theta + theta.T) / 2
+        mu = nrng.normal(size=n)
+        pts = mu + nrng.normal(size=(3, n)) * np.exp(-target / (2 * n))
+        cases.append({"fn": "lltable", "n": n, "W": W, "N": n // W, "clusters": [{"theta": theta.tolist(), "mu": mu.tolist()}],
+                      "points": pts.tolist(), "target": target})
+    return cases
+
+
+def llobs_records(case, result):
+    from harness import obs
+    cl = case["clusters"][0]
+    recs = []
+    for src in ("table", "point"):
+        vals = [row[0] for row in result[src]]
+        ok = "bad" if any(v is None or not math.isfinite(v) for v in vals) else \
+            obs.o7_ll(vals, np.array(case["points"]), np.array(cl["mu"]), np.array(cl["theta"]))
+        recs.append({"kind": "llobs", "src": src, "ok": ok, "n": case["n"], "target": case["target"]})
+    return recs
 
 
 def ll_records(case, result):
@@ -255,18 +296,19 @@ def floor_job(job):
     common.use_repo()
     from fast_ticc import graphical_lasso, matrix_compression
     from fast_ticc.containers import arguments, model_state
-    n, eps, how, seed = job
+    n, eps, how, seed = job[:4]
+    unit = 2.0 ** -(job[4] if len(job) > 4 else 0)        # the floor is scale-free: everything times an exact power of two
     rng = random.Random(seed)
     vals = [-3, -2, -1, 0, 1, 2, 3, eps, -eps]
     if how == "reconstruct":
         tri = [rng.choice(vals) for _ in range(n * (n + 1) // 2)]
         args = arguments.UserArguments(sparsity_weight=0.1, iteration_limit=3, label_switching_cost=1.0,
-                                       min_cluster_size=1, min_meaningful_covariance=eps, num_clusters=2,
+                                       min_cluster_size=1, min_meaningful_covariance=eps * unit, num_clusters=2,
                                        num_processors=1, window_size=1, biased_covariance=False)
         model = model_state.ModelState.empty_model(args, np.zeros((2, n)))
-        vec = np.array(tri, dtype=np.float64)
+        vec = np.array(tri, dtype=np.float64) * unit
         snap = vec.tobytes()
-        out = graphical_lasso._reconstruct_optimized_matrix(model, vec)
+        out = graphical_lasso._reconstruct_optimized_matrix(model, vec) / unit
         m = np.zeros((n, n))
         k = 0
         for r in range(n):
@@ -276,10 +318,10 @@ def floor_job(job):
         return {"kind": "floor", "m": [[int(v) for v in row] for row in m], "eps": eps,
                 "out": [[int(v) for v in row] for row in out], "copy": True, "input_same": vec.tobytes() == snap,
                 "how": how}
-    m = np.array([[rng.choice(vals) for _ in range(n)] for _ in range(n)], dtype=np.float64)
+    m = np.array([[rng.choice(vals) for _ in range(n)] for _ in range(n)], dtype=np.float64) * unit
     orig = m.copy()
     copy = how == "copy"
-    out = graphical_lasso._zero_small_elements(m, eps, copy=copy)
-    return {"kind": "floor", "m": [[int(v) for v in row] for row in orig], "eps": eps,
-            "out": [[int(v) for v in row] for row in out], "copy": copy, "input_same": bool((m == orig).all()),
+    out = graphical_lasso._zero_small_elements(m, eps * unit, copy=copy)
+    return {"kind": "floor", "m": [[int(v) for v in row] for row in orig / unit], "eps": eps,
+            "out": [[int(v) for v in row] for row in out / unit], "copy": copy, "input_same": bool((m == orig).all()),
             "how": how}
